@@ -183,13 +183,33 @@ def exec_random_graph(trace, ctx):
         seen["i"] = atom_index
         return out
 
-    with RandomSeam(ctx, trace["np_seed"]), patched(T, "find_atom_random_displ", mon_displ):
+    drawn = {}
+
+    def on_draw(site, fname, args, value):
+        if fname == "randint":
+            drawn["i"] = int(value)
+
+    with RandomSeam(ctx, trace["np_seed"], listener=on_draw), patched(T, "find_atom_random_displ", mon_displ):
         for rep in range(8):
             before = pos.copy()
             arr = pos.copy()
             explicit = rng.random() < 0.4
+            only_displ = (not explicit) and rng.random() < 0.3
             try:
-                if explicit:
+                if only_displ:
+                    # the displacement is requested, the atom is left to chance
+                    drawn.clear()
+                    d = np.array(gen.unit_vec(rng)) * rng.choice([0.01, 0.3, 5.0])
+                    out = move_mol_atom(arr, table, displ=d.copy(), sigma_scale=trace["sigma_scale"])
+                    moved = drawn.get("i")
+                    ctx.probe("displacement_given_atom_random")
+                    if moved is None:
+                        hit = [i for i in range(n) if np.array_equal(np.asarray(out)[i], before[i] + d)]
+                        if not hit:
+                            ctx.violate("C07", "moved-atom-displacement", "a displacement was requested for a randomly chosen "
+                                                                          "atom, but no atom was displaced by exactly that vector")
+                        moved = hit[0] if hit else None
+                elif explicit:
                     moved = rng.randrange(n)
                     d = np.array(gen.unit_vec(rng)) * rng.choice([0.01, 0.3, 5.0])
                     out = move_mol_atom(arr, table, atom_index=moved, displ=d.copy(), sigma_scale=trace["sigma_scale"])
@@ -246,15 +266,26 @@ def exec_chi2(trace, ctx):
         return
     path = "none" if not restr else ("all" if len({r[0] for r in restr}) == nf else "some")
     ctx.counters["chi2_path:" + path] += 1
+    work = mob0.copy()          # ONE buffer handed to the calculator again and again, modified in place in between
+    reuse_buffer = trace["seed"] % 3 == 1
+    if reuse_buffer:
+        ctx.probe("mobile_buffer_modified_in_place")
     for rep in range(10):
         if rep == 0:
             mob = mob0.copy()
+        elif reuse_buffer and rep % 2 == 1:
+            mob = work.copy()
+            mob[rng.randrange(nm)] += np.array(gen.rvec(rng, sp * 0.3))      # a single-atom move of the previous argument
         else:
             mob = np.array([[rng.uniform(-sp, sp) for _ in range(3)] for _ in range(nm)])
             if rng.random() < 0.3:       # some mobile atoms exactly on top of fixed atoms (distance 0 is legal)
                 for _ in range(rng.randint(1, 3)):
                     mob[rng.randrange(nm)] = fixed[rng.randrange(nf)]
-        arg = mob.copy()
+        if reuse_buffer:
+            work[:] = mob
+            arg = work
+        else:
+            arg = mob.copy()
         try:
             val = float(calc(arg))
         except Exception as e:
@@ -340,6 +371,11 @@ def exec_rotations(trace, ctx):
         ctx.probe("axis_buffer_reused_in_place")
     for rep in range(40):
         norm = 10 ** rng.uniform(-6, 6)
+        if rep % 5 == 2:
+            # lengths close to, but not equal to, 1 (and to other round values): where a tolerance-based "already
+            # normalised" shortcut would bite
+            norm = rng.choice([1.0, 1.0, 2.0, 0.5]) * (1 + rng.choice([-1, 1]) * 10 ** rng.uniform(-9, -3))
+            ctx.probe("axis_length_near_unit")
         c = rng.random()
         if c < 0.2:
             axis = np.zeros(3)
